@@ -8,14 +8,15 @@ ASSUMPTIONS = [
     "accepted contexts are an abstract map id -> context (unknown content, symbolic size); every accepted context has exactly one "
     "transfer syntax (C10/C11)",
     "UPS substitution: for the UPS Push SOP class the other four UPS SOP classes are documented substitutes when no exact context exists",
-    "send_* / _c_store_scp call sites: see NOT_DECIDED",
+    "send_* call sites use _get_valid_context by its contract (any accepted context object or ValueError); a timeout is returned for the "
+    "response (what happens with responses is C24); N-EVENT-REPORT deliberately ignores the negotiated role (code comment), recorded as role None",
 ]
-NOT_DECIDED = ["effect-trace contracts on every send_c_*/send_n_* (the id passed to send_msg is the result's id; encode flags read from "
-               "that context) are not yet built; _c_store_scp's use of the result is covered under C19"]
+NOT_DECIDED = ["_c_store_scp's use of the looked-up context is covered under C19"]
 
 
 def tasks(tier):
-    return [U.GetValidContextTask("C18/")]
+    from contracts.assoc_send import SendOpTask, OPS
+    return [U.GetValidContextTask("C18/")] + [SendOpTask(op) for op in OPS]
 
 
 def replay(rec):
@@ -28,4 +29,4 @@ LEVEL_TEXT = ("_get_valid_context verified by induction over the candidate list 
               "or, with conversion allowed, uncompressed on both sides with the same byte order; a convertible context is used only "
               "when no candidate matches exactly (quantified loop invariant); otherwise ValueError.")
 LEVEL_NOTE = "trusted: pyvc, z3 (UF + quantified invariant), environment model of the accepted-context map."
-TECHNIQUE = "deductive: inductive loop contract on Association._get_valid_context (AST->VC, z3)"
+TECHNIQUE = "deductive: inductive loop contract on Association._get_valid_context + effect-trace call-site contracts on the 12 send_* methods (AST->VC, z3)"
